@@ -71,6 +71,11 @@ F_KIND = {
     "pf_ml": "{{{{#if:c\n|{i}\n|{{{{lc:N}}}}\n}}}}",
     # NOT in the catalogue: quote markup spanning lines ("''a\nb''").  Quote markup is line-scoped in wikitext (the
     # tokenizer resets its state per line), so each line of such a block carries an unclosed '' -- not balanced.
+    # space-indented (preformatted) lines: complete lines, nothing left open.  Only generated where the previous
+    # line is not a list line (the parser treats a leading-blank line after a list item as its continuation).
+    "ind_line": " {i} indented line",
+    "ind_two": " {i} indented\n  second indented line",
+    "ind_mark": " '''b''' {i} [[Tg|x]]",
     # balanced HTML blocks whose end tag has white space before its '>' (legal; '</x\s*>' is the parser's own token)
     "et_div_nl": "<div>{i}</div\n>",
     "et_div_sp": "<div>{i}</div >",
@@ -79,6 +84,19 @@ F_KIND = {
     "et_b_tab": "<b>{i}</b\t> t",
 }
 F_KINDS = sorted(F_KIND)
+F_KINDS_AFTER_LIST = [k for k in F_KINDS if not k.startswith("ind_")]
+
+
+def admissible(lines):
+    """outlines the generator may produce: no space-indented filler directly after a list line"""
+    prev = None
+    for ln in lines:
+        if ln["k"] == "f" and ln["fk"] == "none":
+            continue
+        if prev == "l" and ln["k"] == "f" and ln["fk"].startswith("ind_"):
+            return False
+        prev = ln["k"]
+    return True
 H_DECOS = sorted(H_DECO)
 L_DECOS = sorted(L_DECO)
 MARKERS = ["".join(p) for d in range(1, 5) for p in itertools.product("*#", repeat=d)]  # 30
@@ -241,7 +259,8 @@ def sample_outline(rng):
             lines.append({"k": "l", "m": m, "deco": "plain" if rng.random() < 0.5 else rng.choice(L_DECOS)})
         else:
             prev_m = None
-            lines.append({"k": "f", "fk": rng.choice(F_KINDS)})
+            after_list = bool(lines) and lines[-1]["k"] == "l"
+            lines.append({"k": "f", "fk": rng.choice(F_KINDS_AFTER_LIST if after_list else F_KINDS)})
     if inwrap:
         lines.append({"k": "wc"})
     return with_ids(lines)
